@@ -248,13 +248,17 @@ def incRange (n : Nat) (b : Bnd) : List Nat :=
   if 0 < b.step then ((progression n b.start b.step).takeWhile fun i => i ≤ b.stop).map Int.toNat
   else ((progression n b.start b.step).takeWhile fun i => b.stop ≤ i).map Int.toNat
 
-/-- modify.go (inner and last): `for i := start; i <= end; i += step` / `for i := start; end <= i; i += step` -/
+/-- the INCLUSIVE reading of a slice, as modify.go's loops walk it (`for i := start; i <= end; i += step` /
+`for i := start; end <= i; i += step` over the normalised bounds): end inclusive, absent end = the last element, a
+start that is still negative after the from-the-end conversion selects nothing -/
+def inclIdx (n : Nat) (s e t : Option Int) : List Nat :=
+  match incBounds n s e t with
+  | none => []
+  | some b => incRange n b
+
+/-- modify.go (inner and last) -/
 def modIdx (dev : Dev) (n : Nat) (s e t : Option Int) : List Nat :=
-  if dev.sliceInclusive then
-    match incBounds n s e t with
-    | none => []
-    | some b => incRange n b
-  else sliceIdx n s e t
+  if dev.sliceInclusive then inclIdx n s e t else sliceIdx n s e t
 
 /-- set.go (inner only): `end = start + (end-start)/step*step` (truncated division), then from that end
 back to the start; listed in the order the elements are popped (start first) -/
